@@ -4,4 +4,4 @@ Require Import ExtrOcamlBasic.
 Extraction "cursor_model.ml" CursorModel.tree_cursor CursorModel.tree_root CursorModel.clone
   CursorModel.valid CursorModel.key CursorModel.has_next CursorModel.has_prev CursorModel.has_left
   CursorModel.has_right CursorModel.has_parent CursorModel.step CursorModel.cinorder
-  CursorModel.cinorder_all CursorModel.observe CursorModel.run StreeModel.inorder base_types.
+  CursorModel.cinorder_all CursorModel.observe CursorModel.run StreeModel.inorder StreeModel.get base_types.
